@@ -17,7 +17,6 @@
 //! by a quiescence barrier (current-thread runtime, paused clock: `sleep(1ms)` returns when every
 //! task is idle).
 use std::collections::VecDeque;
-use std::sync::atomic::{AtomicU64, Ordering};
 use std::sync::{Arc, Mutex};
 use std::time::Duration;
 
@@ -43,17 +42,48 @@ pub const UNSUB_NAMES: [&str; NMETH] = ["unsubA", "unsubB"];
 /// use a counter (1, 2, 3, …), re-use the id of a subscription that was unsubscribed / has ended
 /// (ids need only be unique among the live subscriptions of a connection), use the same id on two
 /// connections, or — deliberately undisciplined — hand out an id that is still registered.
-#[derive(Debug, Default)]
-pub struct CounterIds(pub AtomicU64);
+///
+/// Ids are TYPED (`SubscriptionId::Num` | `Str`): on the line protocol a decimal number is `Num n`,
+/// `s<hex of the UTF-8 bytes>` is `Str` (`s-` = empty string); `Num 5` and `Str "5"` are different ids.
+#[derive(Debug)]
+pub struct CounterIds(pub Mutex<SubscriptionId<'static>>);
+impl Default for CounterIds {
+	fn default() -> Self {
+		CounterIds(Mutex::new(SubscriptionId::Num(0)))
+	}
+}
 impl IdProvider for CounterIds {
 	fn next_id(&self) -> SubscriptionId<'static> {
-		SubscriptionId::Num(self.0.load(Ordering::SeqCst))
+		self.0.lock().unwrap().clone()
 	}
 }
 impl CounterIds {
-	pub fn preset(&self, sid: u64) {
-		self.0.store(sid, Ordering::SeqCst);
+	pub fn preset(&self, sid: SubscriptionId<'static>) {
+		*self.0.lock().unwrap() = sid;
 	}
+}
+
+/// typed id -> line-protocol token
+pub fn sid_token(id: &SubscriptionId<'_>) -> String {
+	match id {
+		SubscriptionId::Num(n) => n.to_string(),
+		SubscriptionId::Str(s) => format!("s{}", crate::common::hexs(s)),
+	}
+}
+/// line-protocol token -> typed id
+pub fn parse_sid_token(w: &str) -> Option<SubscriptionId<'static>> {
+	if let Some(h) = w.strip_prefix('s') {
+		if h != "-" && (h.len() % 2 != 0 || !h.chars().all(|c| c.is_ascii_hexdigit())) {
+			return None;
+		}
+		String::from_utf8(crate::common::unhex(h)).ok().map(|s| SubscriptionId::Str(s.into()))
+	} else {
+		w.parse::<u64>().ok().map(SubscriptionId::Num)
+	}
+}
+/// JSON spelling of a typed id
+pub fn sid_json(id: &SubscriptionId<'_>) -> String {
+	serde_json::to_string(id).unwrap()
 }
 #[derive(Debug, Clone)]
 pub struct SharedIds(pub Arc<CounterIds>);
@@ -74,7 +104,7 @@ pub enum Ret {
 /// A handler invocation handed over to the harness.
 pub struct Handover {
 	pub conn: usize,
-	pub sid: u64,
+	pub sid: String,
 	pub meth: usize,
 	pub pending: Option<PendingSubscriptionSink>,
 	pub ret_tx: Option<oneshot::Sender<Ret>>,
@@ -106,10 +136,7 @@ pub fn build_module(shared: Arc<Shared>) -> RpcModule<Arc<Shared>> {
 				let (ret_tx, ret_rx) = oneshot::channel::<Ret>();
 				let gone = Arc::new(Mutex::new(false));
 				let _guard = GoneGuard(gone.clone());
-				let sid = match pending.subscription_id() {
-					SubscriptionId::Num(n) => n,
-					SubscriptionId::Str(_) => u64::MAX,
-				};
+				let sid = sid_token(&pending.subscription_id());
 				let conn = pending.connection_id().0;
 				ctx.handovers.lock().unwrap().push(Handover { conn, sid, meth: m, pending: Some(pending), ret_tx: Some(ret_tx), gone });
 				match ret_rx.await {
@@ -286,15 +313,14 @@ impl Env {
 	}
 
 	/// manual mode: unsubscribe call (middleware/rpc.rs:134-146 + per-message task); `Ok(answer)`
-	pub fn manual_unsubscribe(&mut self, c: usize, meth: usize, rid: u64, x: u64) -> Result<Option<bool>, &'static str> {
+	pub fn manual_unsubscribe(&mut self, c: usize, meth: usize, rid: u64, params: Option<&str>) -> Result<Option<bool>, &'static str> {
 		let ConnImpl::Manual(mc) = &mut self.conns[c] else { return Err("bad") };
 		let Some(sink) = mc.sink.clone() else { return Err("ignored") };
 		if sink.capacity() == 0 {
 			return Err("blocked");
 		}
 		let Some((_, MethodCallback::Unsubscription(cb))) = self.methods.method_with_name(UNSUB_NAMES[meth]) else { return Err("bad") };
-		let params = format!("[{x}]");
-		let rp = (cb)(Id::Number(rid), Params::new(Some(&params)), ConnectionId(mc.conn_id), usize::MAX, Default::default());
+		let rp = (cb)(Id::Number(rid), Params::new(params), ConnectionId(mc.conn_id), usize::MAX, Default::default());
 		let ans = canon_frame(rp.as_json().get()).strip_prefix(&format!("bool:{rid}:")).map(|b| b == "1");
 		tokio::spawn(async move {
 			if rp.is_method_call() {
@@ -373,7 +399,7 @@ impl Env {
 /// One scripted subscription as the harness tracks it (implementation side).
 pub struct SubCtl {
 	pub conn: usize,
-	pub sid: u64,
+	pub sid: String,
 	pub meth: usize,
 	pub pending: Option<PendingSubscriptionSink>,
 	pub sinks: Vec<SubscriptionSink>,
@@ -383,7 +409,7 @@ pub struct SubCtl {
 
 impl SubCtl {
 	pub fn from_handover(h: Handover) -> SubCtl {
-		SubCtl { conn: h.conn, sid: h.sid, meth: h.meth, pending: h.pending, sinks: vec![], ret_tx: h.ret_tx, gone: h.gone }
+		SubCtl { conn: h.conn, sid: h.sid.clone(), meth: h.meth, pending: h.pending, sinks: vec![], ret_tx: h.ret_tx, gone: h.gone }
 	}
 	pub fn handler_gone(&self) -> bool {
 		*self.gone.lock().unwrap()
@@ -405,8 +431,23 @@ pub async fn run_step<T: Send + 'static>(fut: impl std::future::Future<Output = 
 pub fn sub_request(meth: usize, rid: u64) -> String {
 	format!("{{\"jsonrpc\":\"2.0\",\"id\":{rid},\"method\":\"{}\"}}", SUB_NAMES[meth])
 }
-pub fn unsub_request(meth: usize, rid: u64, x: u64) -> String {
-	format!("{{\"jsonrpc\":\"2.0\",\"id\":{rid},\"method\":\"{}\",\"params\":[{x}]}}", UNSUB_NAMES[meth])
+/// `params`: the raw params text (`None` = member omitted)
+pub fn unsub_request(meth: usize, rid: u64, params: Option<&str>) -> String {
+	match params {
+		Some(p) => format!("{{\"jsonrpc\":\"2.0\",\"id\":{rid},\"method\":\"{}\",\"params\":{p}}}", UNSUB_NAMES[meth]),
+		None => format!("{{\"jsonrpc\":\"2.0\",\"id\":{rid},\"method\":\"{}\"}}", UNSUB_NAMES[meth]),
+	}
+}
+
+/// The argument of an `ss unsub` line: a typed id token, or `j<hex>` = raw params text that is not
+/// `[<subscription id>]` (`j-` = params omitted).  Returns (params text, the typed id it names if any).
+pub fn unsub_arg(w: &str) -> Option<(Option<String>, Option<String>)> {
+	if let Some(h) = w.strip_prefix('j') {
+		let t = String::from_utf8(crate::common::unhex(h)).ok()?;
+		return Some((if t.is_empty() { None } else { Some(t) }, None));
+	}
+	let id = parse_sid_token(w)?;
+	Some((Some(format!("[{}]", sid_json(&id))), Some(sid_token(&id))))
 }
 
 /// Canonical token of a frame (exact member sets are checked; anything else is shown raw).
@@ -425,7 +466,11 @@ pub fn canon_frame(text: &str) -> String {
 		if p.len() != 2 {
 			return raw();
 		}
-		let Some(sid) = p.get("subscription").and_then(|v| v.as_u64()) else { return raw() };
+		let sid = match p.get("subscription") {
+			Some(Value::Number(n)) if n.is_u64() => n.as_u64().unwrap().to_string(),
+			Some(Value::String(s)) => format!("s{}", crate::common::hexs(s)),
+			_ => return raw(),
+		};
 		if let Some(r) = p.get("result") {
 			let Some(n) = r.as_u64() else { return raw() };
 			return format!("ntf:{m}:{sid}:{n}");
@@ -444,6 +489,7 @@ pub fn canon_frame(text: &str) -> String {
 		return match r {
 			Value::Bool(b) => format!("bool:{rid}:{}", *b as u8),
 			Value::Number(n) if n.is_u64() => format!("resp:{rid}:{}", n.as_u64().unwrap()),
+			Value::String(s) => format!("resp:{rid}:s{}", crate::common::hexs(s)),
 			_ => raw(),
 		};
 	}
@@ -456,6 +502,11 @@ pub fn canon_frame(text: &str) -> String {
 
 pub fn reject_error(code: i32) -> ErrorObjectOwned {
 	ErrorObjectOwned::owned(code, "rejected", None::<()>)
+}
+
+/// `<flavour><kind>`: s = send, t = send_timeout, y = try_send; c = Complete message, n = NeedsData
+pub fn send_how(w: &str) -> bool {
+	matches!(w, "sc" | "sn" | "tc" | "tn" | "yc" | "yn")
 }
 
 pub fn data_msg(p: u64) -> SubscriptionMessage {
@@ -485,7 +536,7 @@ pub enum BPhase {
 pub struct BSub {
 	pub conn: usize,
 	pub meth: usize,
-	pub sid: u64,
+	pub sid: String,
 	pub rid: u64,
 	pub phase: BPhase,
 	pub clones: u32,
@@ -526,11 +577,11 @@ impl Book {
 		self.subs.iter().filter(|s| s.conn == c && (s.phase == BPhase::Pending || s.clones > 0)).count() as u32
 	}
 	/// the newest subscription that was given this id (ids may be re-used)
-	pub fn by_sid(&self, sid: u64) -> Option<usize> {
+	pub fn by_sid(&self, sid: &str) -> Option<usize> {
 		self.subs.iter().rposition(|s| s.sid == sid)
 	}
 	/// the newest subscription under this (connection, id) whose accept response is expected on `c`
-	pub fn by_conn_sid(&self, c: usize, sid: u64) -> Option<usize> {
+	pub fn by_conn_sid(&self, c: usize, sid: &str) -> Option<usize> {
 		self.subs.iter().rposition(|s| s.sid == sid && s.conn == c).or_else(|| self.by_sid(sid))
 	}
 }
@@ -662,7 +713,7 @@ impl CaseRun {
 		let w: Vec<&str> = f.split(':').collect();
 		match w[0] {
 			"resp" => {
-				let sid: u64 = w[2].parse().map_err(|_| format!("bad frame {f}"))?;
+				let sid: &str = w[2];
 				let rid: u64 = w[1].parse().map_err(|_| format!("bad frame {f}"))?;
 				let Some(k) = self.book.by_conn_sid(c, sid) else { return Err(format!("accept response for unknown subscription: {f}")) };
 				let s = &mut self.book.subs[k];
@@ -676,7 +727,7 @@ impl CaseRun {
 				Ok(())
 			}
 			"ntf" | "nerr" => {
-				let sid: u64 = w[2].parse().map_err(|_| format!("bad frame {f}"))?;
+				let sid: &str = w[2];
 				let p: u64 = w[3].parse().map_err(|_| format!("bad frame {f}"))?;
 				let Some(k) = self.book.by_conn_sid(c, sid) else { return Err(format!("notification for unknown subscription id: {f}")) };
 				let s = &mut self.book.subs[k];
@@ -745,7 +796,7 @@ impl CaseRun {
 						self.subs[k].sinks.push(sink);
 						// an id handed out again while its previous holder was still registered: the newer
 						// subscription takes over the (connection, method, id) entry
-						let (kc, km, ks) = (self.book.subs[k].conn, self.book.subs[k].meth, self.book.subs[k].sid);
+						let (kc, km, ks) = (self.book.subs[k].conn, self.book.subs[k].meth, self.book.subs[k].sid.clone());
 						for (j, b) in self.book.subs.iter_mut().enumerate() {
 							if j != k && b.conn == kc && b.meth == km && b.sid == ks && b.registered() {
 								b.displaced = true;
@@ -778,18 +829,31 @@ impl CaseRun {
 	}
 
 	/// `SubscriptionSink::send` on the newest live handle of subscription `k`
-	async fn op_send(&mut self, k: usize, p: u64, orc: &mut Result<(), String>, settle: bool) -> String {
+	async fn op_send(&mut self, k: usize, p: u64, how: &str, orc: &mut Result<(), String>, settle: bool) -> String {
 		if k >= self.subs.len() {
 			"bad".into()
 		} else if self.subs[k].sinks.is_empty() {
 			"nosink".into()
 		} else {
 			let expect = self.expect_active(k);
-			let sink = self.subs[k].sinks.last().unwrap();
+			let meth = self.subs[k].meth;
+			let sink = self.subs[k].sinks.last_mut().unwrap();
 			if !self.eager && !sink.is_closed() && sink.capacity() == 0 {
 				"blocked".into()
 			} else {
-				let r = tokio::time::timeout(Duration::from_millis(1), sink.send(data_msg(p))).await;
+				// message kind: `c` = already serialised (`SubscriptionMessage::new`, the sink must still
+				// refuse it when closed), `n` = raw value, id and method filled in by the sink
+				let msg = if how.ends_with('c') {
+					SubscriptionMessage::new(NOTIF_NAMES[meth], sink.subscription_id(), &p).unwrap()
+				} else {
+					data_msg(p)
+				};
+				// flavour: send / send_timeout / try_send (never parks: room was checked above)
+				let r: Result<Result<(), ()>, ()> = match how.as_bytes()[0] {
+					b't' => tokio::time::timeout(Duration::from_millis(1), sink.send_timeout(msg, Duration::from_secs(3600))).await.map(|r| r.map_err(|_| ())).map_err(|_| ()),
+					b'y' => Ok(sink.try_send(msg).map_err(|_| ())),
+					_ => tokio::time::timeout(Duration::from_millis(1), sink.send(msg)).await.map(|r| r.map_err(|_| ())).map_err(|_| ()),
+				};
 				if settle {
 						barrier().await;
 					}
@@ -830,13 +894,20 @@ impl CaseRun {
 		let verb = w[1];
 		let out: String = match verb {
 			"sub" => {
-				let (Some(c), Some(m), Some(rid), Some(sid)) = (num(2), num(3), num(4), num(5)) else { return bad("bad-op") };
+				let (Some(c), Some(m), Some(rid), Some(sid_id)) = (num(2), num(3), num(4), w.get(5).and_then(|x| parse_sid_token(x))) else {
+					return bad("bad-op");
+				};
+				let sid = sid_token(&sid_id);
+				if Some(&sid.as_str()) != w.get(5) {
+					// only canonical tokens (no leading zeros in numbers, lower-case hex)
+					return bad("bad-op");
+				}
 				let (c, m) = (c as usize, m as usize);
 				if c >= self.nconns || m >= NMETH {
 					"bad".into()
 				} else {
 					// what the id provider hands out if this call gets a permit
-					self.env.ids.preset(sid);
+					self.env.ids.preset(sid_id);
 					let holding = self.book.holding(c);
 					let serving = self.conn_serving(c) && !self.book.stopped;
 					let res: String = if self.eager {
@@ -858,7 +929,7 @@ impl CaseRun {
 						self.book.subs.push(BSub {
 							conn: h.conn,
 							meth: h.meth,
-							sid: h.sid,
+							sid: h.sid.clone(),
 							rid,
 							phase: BPhase::Pending,
 							clones: 0,
@@ -913,21 +984,23 @@ impl CaseRun {
 			}
 			// accept immediately followed by a send, no yield in between (zero delay placement)
 			"acceptsend" => {
-				let (Some(k), Some(p)) = (num(2), num(3)) else { return bad("bad-op") };
+				let (Some(k), Some(p), Some(how)) = (num(2), num(3), w.get(4).copied().filter(|h| send_how(h))) else { return bad("bad-op") };
 				let r1 = self.op_accept(k as usize, &mut orc, false).await;
-				let r2 = self.op_send(k as usize, p, &mut orc, false).await;
+				let r2 = self.op_send(k as usize, p, how, &mut orc, false).await;
 				barrier().await;
 				format!("{r1}+{r2}")
 			}
 			// n sends in a row without yielding (payloads p, p+1, …): the queue really fills
 			"burst" => {
-				let (Some(k), Some(p), Some(n)) = (num(2), num(3), num(4)) else { return bad("bad-op") };
+				let (Some(k), Some(p), Some(n), Some(how)) = (num(2), num(3), num(4), w.get(5).copied().filter(|h| send_how(h))) else {
+					return bad("bad-op");
+				};
 				if n == 0 || n > 16 {
 					return bad("bad-op");
 				}
 				let mut rs = vec![];
 				for i in 0..n {
-					rs.push(self.op_send(k as usize, p + i, &mut orc, false).await);
+					rs.push(self.op_send(k as usize, p + i, how, &mut orc, false).await);
 				}
 				barrier().await;
 				rs.join(",")
@@ -963,8 +1036,8 @@ impl CaseRun {
 				}
 			}
 			"send" => {
-				let (Some(k), Some(p)) = (num(2), num(3)) else { return bad("bad-op") };
-				self.op_send(k as usize, p, &mut orc, true).await
+				let (Some(k), Some(p), Some(how)) = (num(2), num(3), w.get(4).copied().filter(|h| send_how(h))) else { return bad("bad-op") };
+				self.op_send(k as usize, p, how, &mut orc, true).await
 			}
 			"clone" => {
 				let Some(k) = num(2) else { return bad("bad-op") };
@@ -1038,12 +1111,16 @@ impl CaseRun {
 				}
 			}
 			"unsub" => {
-				let (Some(c), Some(m), Some(x), Some(rid)) = (num(2), num(3), num(4), num(5)) else { return bad("bad-op") };
+				let (Some(c), Some(m), Some((params, named)), Some(rid)) = (num(2), num(3), w.get(4).and_then(|x| unsub_arg(x)), num(5)) else {
+					return bad("bad-op");
+				};
 				let (c, m) = (c as usize, m as usize);
 				if c >= self.nconns || m >= NMETH {
 					"bad".into()
 				} else {
-					// C06.1: the truth table, from the script alone
+					// C06.1: the truth table, from the script alone: true iff an active subscription of this
+					// connection has exactly that TYPED id (a parameter that is not an id names nothing)
+					let x: String = named.clone().unwrap_or_else(|| "\u{0}not-an-id".into());
 					// (ids may be re-used: the call names the subscription CURRENTLY registered under the id
 					// on this connection; older holders of the id are only shown in messages)
 					let target = self
@@ -1055,7 +1132,7 @@ impl CaseRun {
 					let expect = target.map(|k| self.expect_active(k)).unwrap_or(false);
 					let mut known: Option<bool> = None;
 					let res: String = if self.eager {
-						match self.env.request(c, unsub_request(m, rid, x)).await {
+						match self.env.request(c, unsub_request(m, rid, params.as_deref())).await {
 							Err(()) => "ignored".into(),
 							Ok(()) => {
 								barrier().await;
@@ -1063,7 +1140,7 @@ impl CaseRun {
 							}
 						}
 					} else {
-						let r = self.env.manual_unsubscribe(c, m, rid, x);
+						let r = self.env.manual_unsubscribe(c, m, rid, params.as_deref());
 						barrier().await;
 						match r {
 							Ok(a) => {
@@ -1203,6 +1280,8 @@ pub struct Profile {
 	pub w_burst: u64,
 	/// how many subscribe calls in 10 get a re-used subscription id (0 = ids never repeat)
 	pub reuse_ids: u64,
+	/// how many fresh ids in 10 are strings (digit strings, boundary values, non-digit strings)
+	pub typed_ids: u64,
 	/// end every case with the refill-to-cap tail (C06) instead of draining the queues (C04)
 	pub tail: bool,
 }
@@ -1242,30 +1321,72 @@ impl Gen {
 /// holder there was unsubscribed / rejected / has ended — possibly still holding its sink — or the id
 /// is only in use on another connection / method), rarely (1 in 12 of the re-uses) an id that is
 /// still pending or registered on (c, m) (an undisciplined provider: the newer accept takes over).
-fn choose_sid(rng: &mut Rng, book: &Book, c: usize, m: usize, pf: &Profile) -> String {
+fn choose_sid(rng: &mut Rng, book: &Book, c: usize, m: usize, pf: &Profile, g: &mut Gen) -> String {
 	if pf.reuse_ids == 0 || book.subs.is_empty() || !rng.chance(pf.reuse_ids, 10) {
-		return "SID".into();
+		return fresh_sid(rng, pf, g);
 	}
-	let live_here = |sid: u64| book.subs.iter().any(|s| s.conn == c && s.meth == m && s.sid == sid && (s.phase == BPhase::Pending || s.registered()));
+	let live_here = |sid: &str| book.subs.iter().any(|s| s.conn == c && s.meth == m && s.sid == sid && (s.phase == BPhase::Pending || s.registered()));
 	let undisciplined = rng.chance(1, 12);
 	// prefer ids whose previous holder on (c, m) still holds a sink (the late-release window)
-	let mut cands: Vec<u64> = vec![];
+	let mut cands: Vec<String> = vec![];
 	for s in &book.subs {
 		if undisciplined {
-			if live_here(s.sid) {
-				cands.push(s.sid);
+			if live_here(&s.sid) {
+				cands.push(s.sid.clone());
 			}
-		} else if !live_here(s.sid) {
-			cands.push(s.sid);
+		} else if !live_here(&s.sid) {
+			cands.push(s.sid.clone());
 			if s.conn == c && s.meth == m && s.clones > 0 {
-				cands.push(s.sid);
-				cands.push(s.sid);
-				cands.push(s.sid);
+				cands.push(s.sid.clone());
+				cands.push(s.sid.clone());
+				cands.push(s.sid.clone());
 			}
 		}
 	}
-	if cands.is_empty() { "SID".into() } else { rng.pick(&cands).to_string() }
+	if cands.is_empty() { fresh_sid(rng, pf, g) } else { rng.pick(&cands).clone() }
 }
+
+fn pick_how(rng: &mut Rng) -> &'static str {
+	*rng.pick(&["sn", "sn", "sc", "sc", "tn", "tc", "yn", "yc"])
+}
+
+fn str_token(s: &str) -> String {
+	format!("s{}", crate::common::hexs(s))
+}
+
+/// A fresh typed id: `Num n` from the counter, or — `pf.typed_ids` in 10 — a string: the digits of
+/// the counter ("7"), digits with leading zeros ("007"), the u64 boundary as strings, "0", or a
+/// non-digit string ("a7", "0x7", "7 ", "+7", "-7", "")
+fn fresh_sid(rng: &mut Rng, pf: &Profile, g: &mut Gen) -> String {
+	g.next_sid += 1;
+	let n = g.next_sid;
+	if pf.typed_ids == 0 || !rng.chance(pf.typed_ids, 10) {
+		return n.to_string();
+	}
+	match rng.below(12) {
+		0..=4 => str_token(&n.to_string()),
+		5 => str_token(&format!("00{n}")),
+		6 => str_token(&format!("a{n}")),
+		7 => str_token(&format!("0x{n}")),
+		8 => str_token(*rng.pick(&["18446744073709551615", "18446744073709551616", "0", ""])),
+		9 => str_token(&format!("{n} ")),
+		10 => str_token(&format!("+{n}")),
+		_ => str_token(&format!("-{n}")),
+	}
+}
+
+/// the same digits in the OTHER kind: `Num 7` <-> `Str "7"` (also `Str "007"` -> `Num 7`)
+pub fn other_kind(tok: &str) -> Option<String> {
+	match parse_sid_token(tok)? {
+		SubscriptionId::Num(n) => Some(str_token(&n.to_string())),
+		SubscriptionId::Str(s) => s.parse::<u64>().ok().map(|n| n.to_string()),
+	}
+}
+
+/// params that are not `[<subscription id>]`
+pub const BAD_UNSUB_PARAMS: [&str; 14] = [
+	"[{}]", "[[1]]", "[true]", "[1.5]", "[-1]", "[null]", "[]", "[1,2]", "{\"id\":1}", "", "[18446744073709551616]", "[\"a\",\"b\"]", "[1e0]", "{}",
+];
 
 pub fn gen_line(rng: &mut Rng, run: &CaseRun, g: &mut Gen, pf: &Profile) -> String {
 	let book = &run.book;
@@ -1275,20 +1396,20 @@ pub fn gen_line(rng: &mut Rng, run: &CaseRun, g: &mut Gen, pf: &Profile) -> Stri
 	for c in 0..run.nconns {
 		let w = if book.peer_closed[c] { 1 } else if book.holding(c) <= book.cap { 6 } else { 2 };
 		let m = rng.below(NMETH as u64) as usize;
-		let sid = choose_sid(rng, book, c, m, pf);
+		let sid = choose_sid(rng, book, c, m, pf, g);
 		opts.push((w, format!("ss sub {c} {m} RID {sid}")));
 	}
 	for (k, s) in run.subs.iter().enumerate() {
 		let b = &book.subs[k];
 		if s.pending.is_some() {
 			opts.push((pf.w_accept, format!("ss accept {k}")));
-			opts.push((pf.w_burst, format!("ss acceptsend {k} PAY")));
+			opts.push((pf.w_burst, format!("ss acceptsend {k} PAY {}", pick_how(rng))));
 			opts.push((2, format!("ss reject {k} {}", *rng.pick(&[-32000i32, -1, 7, -32602]))));
 			opts.push((1, format!("ss droppending {k}")));
 		}
 		if !s.sinks.is_empty() {
-			opts.push((pf.w_send, format!("ss send {k} PAY")));
-			opts.push((pf.w_burst, format!("ss burst {k} PAYN {}", rng.range(2, 6))));
+			opts.push((pf.w_send, format!("ss send {k} PAY {}", pick_how(rng))));
+			opts.push((pf.w_burst, format!("ss burst {k} PAYN {} {}", rng.range(2, 6), pick_how(rng))));
 			opts.push((3, format!("ss clone {k}")));
 			opts.push((4, format!("ss dropsink {k}")));
 			opts.push((3, format!("ss isclosed {k}")));
@@ -1308,7 +1429,13 @@ pub fn gen_line(rng: &mut Rng, run: &CaseRun, g: &mut Gen, pf: &Profile) -> Stri
 			opts.push((1, format!("ss unsub {} {} {} RID", (b.conn as u64 + 1 + rng.below(n - 1)) % n, b.meth, b.sid)));
 		}
 		opts.push((1, format!("ss unsub {} {} {} RID", b.conn, (b.meth + 1) % NMETH, b.sid)));
+		// the same digits in the other kind (Num 7 vs Str "7"): names nothing
+		if let Some(o) = other_kind(&b.sid) {
+			opts.push((if b.registered() { 3 } else { 1 }, format!("ss unsub {} {} {o} RID", b.conn, b.meth)));
+		}
 	}
+	// a parameter that is not a subscription id
+	opts.push((1, format!("ss unsub {} {} j{} RID", rng.below(n), rng.below(NMETH as u64), crate::common::hexs(*rng.pick(&BAD_UNSUB_PARAMS[..])))));
 	// unknown id
 	opts.push((1, format!("ss unsub {} {} {} RID", rng.below(n), rng.below(NMETH as u64), 900 + rng.below(5))));
 	// faults
@@ -1323,7 +1450,7 @@ pub fn gen_line(rng: &mut Rng, run: &CaseRun, g: &mut Gen, pf: &Profile) -> Stri
 	// not enabled / nonsense
 	let ns = run.subs.len() as u64 + 1;
 	opts.push((1, format!("ss accept {}", rng.below(ns))));
-	opts.push((1, format!("ss send {} PAY", rng.below(ns))));
+	opts.push((1, format!("ss send {} PAY {}", rng.below(ns), pick_how(rng))));
 	opts.push((1, format!("ss dropsink {}", rng.below(ns))));
 	if !run.eager {
 		for c in 0..run.nconns {
@@ -1354,7 +1481,7 @@ pub fn fill(line: String, g: &mut Gen) -> String {
 	}
 	if line.contains("PAYN") {
 		// a burst: reserve the whole payload range p .. p+n-1
-		let n: u64 = line.split_whitespace().last().and_then(|x| x.parse().ok()).unwrap_or(1);
+		let n: u64 = line.split_whitespace().rev().nth(1).and_then(|x| x.parse().ok()).unwrap_or(1);
 		line = line.replace("PAYN", &(g.next_payload + 1).to_string());
 		g.next_payload += n;
 	}
@@ -1472,7 +1599,7 @@ pub fn exhaustive(out: &mut Out, maxlen: usize, caseno: &mut u64, pf: &Profile) 
 		"ss sub 0 0 RID SID",
 		"ss accept 0",
 		"ss reject 0 -1",
-		"ss send 0 PAY",
+		"ss send 0 PAY sc",
 		"ss clone 0",
 		"ss dropsink 0",
 		"ss unsub 0 0 1 RID",
@@ -1496,7 +1623,7 @@ pub fn exhaustive_reuse(out: &mut Out, maxlen: usize, caseno: &mut u64, pf: &Pro
 		"ss dropsink 1",
 		"ss clone 0",
 	];
-	let tail = ["ss isclosed 0", "ss isclosed 1", "ss send 1 PAY", "ss unsub 0 0 1 RID", "ss sub 0 0 RID 1"];
+	let tail = ["ss isclosed 0", "ss isclosed 1", "ss send 1 PAY sc", "ss unsub 0 0 1 RID", "ss sub 0 0 RID 1"];
 	exhaustive_over(out, &alphabet, 2, &tail, maxlen, caseno, pf, "exhaustive.id-reuse-scripts");
 }
 
